@@ -154,6 +154,27 @@ mutual
     | s :: ss => Selector.phFree s && !s.hasLeadingCombinator && Selector.phFreeList ss
 end
 
+mutual
+  /-- a placeholder occurs somewhere in the selector — in a compound or, at any depth, inside the
+  selector argument of ANY pseudo-class or pseudo-element, whatever its name -/
+  def Selector.hasPh : Selector → Bool
+    | .leaf c => Compound.hasPh c
+    | .rel _ r c => Compound.hasPh c || Selector.hasPh r
+  def Compound.hasPh : Compound → Bool
+    | .mk _ _ p _ _ _ ps => !p.isEmpty || Pseudo.hasPhList ps
+  def Pseudo.hasPh : Pseudo → Bool
+    | .mk _ a _ => PArg.hasPh a
+  def PArg.hasPh : PArg → Bool
+    | .sel s => Selector.hasPhList s
+    | _ => false
+  def Pseudo.hasPhList : List Pseudo → Bool
+    | [] => false
+    | p :: ps => Pseudo.hasPh p || Pseudo.hasPhList ps
+  def Selector.hasPhList : List Selector → Bool
+    | [] => false
+    | s :: ss => Selector.hasPh s || Selector.hasPhList ss
+end
+
 /-- selectorset.rs `SelectorSet::no_placeholder` -/
 def SelSet.noPlaceholder (q : PhQuirks) (s : SelSet) : Opt SelSet :=
   Opt.collectPos (Selector.noPlaceholderList q s)
